@@ -15,9 +15,9 @@ K = 48
 
 def cfg(tier):
     if tier == 'quick':
-        return {'La': 2, 'Lb': 2, 'roles': 'RBW', 'da': 2, 'db': 2, 'struct': True, 'extra': [(1, 'RBX', 2), (3, 'RB', 1), (3, 'eg', 2)]}
+        return {'La': 2, 'Lb': 2, 'roles': 'RBW', 'da': 2, 'db': 2, 'struct': True, 'extra': [(1, 'RBX', 2), (3, 'RB', 1), (3, 'eg', 2), (2, 'oq', 1)]}
     return {'La': 2, 'Lb': 2, 'roles': 'RBWX', 'da': 3, 'db': 2, 'struct': False,
-            'extra': [(1, 'RBXW', 3), (3, 'RBW', 2), (2, 'RBW', 2, True), (4, 'RB', 2), (3, 'egmB', 2), (4, 'eg', 2)]}
+            'extra': [(1, 'RBXW', 3), (3, 'RBW', 2), (2, 'RBW', 2, True), (4, 'RB', 2), (3, 'egmB', 2), (4, 'eg', 2), (2, 'oqW', 2)]}
 
 
 def tasks(tier, seed):
